@@ -34,7 +34,7 @@ Valid(c) == BlockersExist(c) /\ UniqueNames(c) /\ GroupsAssigned(c) /\ GroupsCon
 
 Verdict(o) ==
   LET v == Valid(o.cfg) IN
-  (IF v => o.accepted THEN {} ELSE {"ValidAccepted"})
+  (IF v => (o.accepted /\ o.mem \in {"ok", "skip"}) THEN {} ELSE {"ValidAccepted"})
   \cup (IF ~v => (~o.accepted /\ o.error \in {"InvalidConfiguration", "InvalidParameter"}) THEN {} ELSE {"InvalidRejected"})
   \cup (IF ~v => o.sbatch = 0 THEN {} ELSE {"RejectedBeforeHandOver"})
   \cup (IF (v /\ o.dumped) => o.loaded = o.orig THEN {} ELSE {"RoundTripLossless"})
